@@ -827,7 +827,9 @@ func (db *DBStore) SupplementTipTransaction(txn types.Transaction) (ts consensus
 // SupplementTipBlock implements Store.
 func (db *DBStore) SupplementTipBlock(b types.Block) (bs consensus.V1BlockSupplement) {
 	height := db.getHeight()
-	if height >= db.n.HardforkV2.RequireHeight {
+	// consensus requires an empty supplement for the block *at* the require
+	// height already, i.e. as soon as the child of the tip reaches it
+	if height+1 >= db.n.HardforkV2.RequireHeight {
 		return consensus.V1BlockSupplement{Transactions: make([]consensus.V1TransactionSupplement, len(b.Transactions))}
 	}
 
